@@ -29,11 +29,11 @@ from scipy import sparse
 
 from vlib import graphs
 from vlib.cases import Case, Sub, evaluate as _evaluate
-from vlib.core import enc_list, enc_rat, enc_ratlist, enc_bool, VERIF
+from vlib.core import enc_list, enc_rat, enc_ratlist, enc_bool, VERIF, ToolFailure
 
 TOL64 = Fraction(1, 10 ** 9)     # float64 paths (DESIGN section 8)
 EPS32 = Fraction(2, 10 ** 5)     # float32 kernels: accumulated rounding of the gains (DESIGN section 8)
-N_RANDS = 400                    # values of rand() handed to the model per Leiden case
+N_RANDS = 400                    # default number of rand() values handed to the model (see _n_rands)
 CALL_TIMEOUT = 15                # seconds allowed to one call of the implementation (inputs have <= 40 nodes)
 CALL_TIMEOUT_AFTER_HANG = 3      # once a call has hung, the following ones get this much
 MAX_HANGS = 12                   # after that many hung / crashed calls the remaining cases are not run
@@ -121,6 +121,12 @@ def _pick_dtype(rng, values, p=0.5):
     return rng.choice(_dtypes_for(values))
 
 
+def _n_rands(n):
+    """optimize_refine_core makes at most n + 1 passes over n nodes and draws at most once per node and pass: with
+    n (n + 1) + 1 values the oracle of the model cannot run out"""
+    return n * (n + 1) + 1
+
+
 def _rands(seed, k=N_RANDS):
     _libc.srand(seed)
     out = [_libc.rand() for _ in range(k)]
@@ -129,17 +135,17 @@ def _rands(seed, k=N_RANDS):
 
 
 def _plain_rand(ctx):
-    """The refinement kernel still draws from libc rand() and Leiden still reaches it through the module-level name
-    the harness wraps (otherwise the Leiden run lines are replaced by spec lines and a note is written)."""
+    """The refinement kernel still draws from libc rand() (otherwise the Leiden run lines are replaced by spec lines
+    and a note is written).  How Leiden reaches the kernel does not matter: the wrapper is installed on every name of
+    `sknetwork.clustering.leiden` bound to the kernel function."""
     root = os.path.join(ctx.overlay_root, 'sknetwork', 'clustering') if getattr(ctx, 'overlay_root', None) else None
     if root is None:
         return True
     try:
         core = open(os.path.join(root, 'leiden_core.pyx')).read()
-        py = open(os.path.join(root, 'leiden.py')).read()
     except OSError:
         return False
-    return 'rand()' in core and 'libc.stdlib' in core and 'optimize_refine_core' in py
+    return 'rand()' in core and 'libc.stdlib' in core
 
 
 # ------------------------------------------------------------------------------------------------
@@ -206,15 +212,28 @@ def _impl_fit(desc):
     bip = fb or a.shape[0] != a.shape[1]
     cls = Louvain if desc['f'] == 'Louvain' else Leiden
     base = int(desc.get('seed', 1))
+    shuffle = bool(desc.get('shuffle_nodes'))
     est = cls(resolution=desc['resolution'], modularity=desc['kind'], tol_optimization=desc['tol_optimization'],
-              tol_aggregation=desc['tol_aggregation'], n_aggregations=desc['n_aggregations'], shuffle_nodes=False,
-              sort_clusters=False, return_probs=False, return_aggregate=False, random_state=base)
+              tol_aggregation=desc['tol_aggregation'], n_aggregations=desc['n_aggregations'], shuffle_nodes=shuffle,
+              sort_clusters=bool(desc.get('sort_clusters')), return_probs=False, return_aggregate=False,
+              random_state=base)
     seeds = []
+    seen = {}
+    # observe the permutation `_pre_processing` draws when shuffle_nodes is set (its fifth result)
+    orig_pp = est._pre_processing
+
+    def pre_processing(*args, **kw):
+        r = orig_pp(*args, **kw)
+        seen['index'] = [int(x) for x in r[4]]
+        return r
+    est._pre_processing = pre_processing
+    patched = []
     if desc['f'] == 'Leiden':
         # observe, at the kernel boundary, which stream of rand() each refinement draws from: the seed Leiden.fit
         # hands to the kernel, or (signature without a seed) a seed set here just before the call
         import sknetwork.clustering.leiden as lm
-        orig = _PRISTINE.setdefault('refine', lm.optimize_refine_core)   # never wrap a wrapper
+        import sknetwork.clustering.leiden_core as lc
+        orig = _PRISTINE.setdefault('refine', lc.optimize_refine_core)   # never wrap a wrapper
 
         def recorder(*args, **kw):
             sd = kw.get('seed', args[12] if len(args) > 12 else None)
@@ -225,12 +244,22 @@ def _impl_fit(desc):
                 seeds.append(sd)
                 _libc.srand(sd)
             return orig(*args, **kw)
-        lm.optimize_refine_core = recorder
+        patched = [k for k, v in vars(lm).items() if v is orig]
+        for k in patched:
+            setattr(lm, k, recorder)
     try:
+        refit = desc.get('refit')
+        if refit:
+            # the estimator has a history: an earlier fit on the same or on another graph
+            first = a if refit == 'same' else _mk_csr(refit)
+            est.fit(first, force_bipartite=fb if refit == 'same' else False)
+            del seeds[:]
+            seen.clear()
         est.fit(a, force_bipartite=fb)
     finally:
-        if desc['f'] == 'Leiden':
-            lm.optimize_refine_core = orig
+        for k in patched:
+            setattr(lm, k, orig)
+    # the named observable: the 'Increase:' figures recorded in the estimator's `log` attribute
     incs = [float(x) for x in re.findall(r'Increase: (\S+)', est.log)]
     if bip:
         labs = [int(x) for x in est.labels_row_] + [int(x) for x in est.labels_col_]
@@ -238,7 +267,9 @@ def _impl_fit(desc):
         labs = [int(x) for x in est.labels_]
     ans = 'ok %s %s' % (enc_list(labs), enc_ratlist(Fraction(x) for x in incs))
     if desc['f'] == 'Leiden':
-        ans += ' ' + enc_list(seeds)
+        ans += ' seeds=' + enc_list(seeds)
+    if shuffle and 'index' in seen:
+        ans += ' index=' + enc_list(seen['index'])
     return ans
 
 
@@ -256,11 +287,11 @@ def _impl_of(desc):
         return 'exc ' + type(e).__name__
 
 
-def run_impls(descs):
+def run_impls(descs, timeout=None):
     """Implementation answer for every description, computed in forked workers (one alarm per call)."""
     results = [None] * len(descs)
     start = 0
-    timeout = CALL_TIMEOUT
+    timeout = timeout or CALL_TIMEOUT
     lost = 0
     while start < len(descs):
         if lost >= MAX_HANGS:
@@ -355,7 +386,7 @@ def case_core(desc, impl):
 
 
 def case_refine(desc, impl):
-    rands = _rands(desc['seed'])
+    rands = _rands(desc['seed'], _n_rands(desc['n']))
     head, tail = _kernel_tokens(desc)
     run = 'c06.refine %s %s %s %d %s' % (' '.join(head), enc_list(desc['refined']), ' '.join(tail),
                                          _bits([desc['resolution']])[0], enc_list(rands))
@@ -364,75 +395,125 @@ def case_refine(desc, impl):
     return Case(('refine', run), sig, run, impl, None, moved, dict(desc), canon='refine')
 
 
+BIG_N = 60      # above this many nodes the spec line uses the per-cluster form of the objective (no component test)
+
+
 def case_fit(desc, impl, plain_rand=True):
+    """One fit: the main case (exact run line and/or spec line) and, where there is no run line, a second case asking
+    the model whether `_pre_processing` accepts the input (refusals are compared both ways)."""
     algo = desc['f']
     a = _mk_csr(desc)
     kind, res = desc['kind'], desc['resolution']
     tol_o, tol_a, n_agg = desc['tol_optimization'], desc['tol_aggregation'], desc['n_aggregations']
     fb = bool(desc.get('force_bipartite'))
     bip = fb or a.shape[0] != a.shape[1]
+    n_nodes = a.shape[0] + a.shape[1] if bip else a.shape[0]
     seed = desc.get('seed', 1)
+    shuffle, sort = bool(desc.get('shuffle_nodes')), bool(desc.get('sort_clusters'))
     g = _enc_csr(a.shape, a.indptr, a.indices, a.data)
     res32 = Fraction(float(np.float32(res)))
     tol32 = Fraction(float(np.float32(tol_o)))
-    seeds = []
-    if algo == 'Leiden' and impl.startswith('ok ') and len(impl.split(' ')) == 4:
-        seeds = [int(x) for x in impl.split(' ')[3].split(',')] if impl.split(' ')[3] != '-' else []
-        impl = ' '.join(impl.split(' ')[:3])
+    seeds, index = None, None
+    if impl.startswith('ok '):
+        toks = impl.split(' ')
+        for t in toks[3:]:
+            if t.startswith('seeds='):
+                seeds = [int(x) for x in t[6:].split(',')] if t[6:] != '-' else []
+            if t.startswith('index='):
+                index = [int(x) for x in t[6:].split(',')] if t[6:] != '-' else []
+        impl = ' '.join(toks[:3])
+    ktok = kind if kind in KINDS else 'other'
     run = None
-    if desc.get('exact') and (algo == 'Louvain' or plain_rand):
-        run = 'c06.%s %s %s %s %s %d %s %s' % (algo.lower(), kind if kind in KINDS else 'other', enc_rat(res32),
-                                               enc_rat(tol32), enc_rat(Fraction(tol_a)), n_agg, g, enc_bool(fb))
-        if algo == 'Leiden':
+    note = None
+    if desc.get('exact') and not sort and impl != 'hang-skipped':
+        common = '%s %s %s %s %d %s %s' % (ktok, enc_rat(res32), enc_rat(tol32), enc_rat(Fraction(tol_a)), n_agg, g,
+                                           enc_bool(fb))
+        if algo == 'Louvain' and not shuffle:
+            run = 'c06.louvain ' + common
+        elif algo == 'Louvain' and (index is not None or not impl.startswith('ok ')):
+            # the permutation the random state drew is the oracle of the shuffled model
+            run = 'c06.louvain_shuffled %s %s' % (common, enc_list(index if index is not None else range(n_nodes)))
+        elif algo == 'Leiden' and not shuffle and plain_rand and (seeds or not impl.startswith('ok ')):
             # one oracle per aggregation: the stream of rand() after srand(seed of that aggregation)
-            run += ' ' + (';'.join(enc_list(_rands(sd)) for sd in seeds) if seeds else '-')
+            k = _n_rands(n_nodes)
+            run = 'c06.leiden %s %s' % (common, ';'.join(enc_list(_rands(sd, k)) for sd in seeds) if seeds else '-')
+        elif algo == 'Leiden' and not shuffle and plain_rand:
+            note = 'leiden:no-seed-observed'
     spec = None
     moved = False
+    extra = []
     if impl.startswith('ok '):
         _, ltok, itok = impl.split(' ')
-        spec = 'c06.spec_fit %s %s %s %s %s %s %s' % (kind, enc_rat(res32), g, enc_bool(fb), ltok, itok, enc_rat(EPS32))
+        cmd = 'c06.spec_fit_big' if n_nodes > BIG_N else 'c06.spec_fit'
+        spec = '%s %s %s %s %s %s %s %s' % (cmd, kind, enc_rat(res32), g, enc_bool(fb), ltok, itok, enc_rat(EPS32))
         labs = [int(x) for x in ltok.split(',')]
         moved = len(set(labs)) < len(labs)
-    elif run is None:
-        # no model answer to compare a refusal / hang with: ask the model whether the input is refused
-        run = 'c06.accepts %s %s %s' % (kind if kind in KINDS else 'other', g, enc_bool(fb))
-        impl = 'refused' if impl.startswith('err') else impl
     sig = {'entry': algo + '.fit', 'kind': kind, 'bipartite': bool(bip)}
-    return Case((algo, kind, res, tol_o, tol_a, n_agg, g, fb, seed if algo == 'Leiden' else 0, bool(desc.get('exact'))),
-                sig, run, impl, spec, moved, dict(desc))
+    if desc.get('refit'):
+        sig['refit'] = True
+    key = (algo, kind, res, tol_o, tol_a, n_agg, g, fb, seed if (algo == 'Leiden' or shuffle) else 0,
+           bool(desc.get('exact')), shuffle, sort, repr(desc.get('refit'))[:40], desc.get('dtype'))
+    if run is None and impl != 'hang-skipped':
+        # no model fit to compare with: ask the model whether the input is accepted — compared both ways
+        acc = 'c06.accepts %s %s %s' % (ktok, g, enc_bool(fb))
+        verdict = 'accepted' if impl.startswith('ok ') else ('refused' if impl.startswith('err') else impl)
+        if spec is None:
+            return [Case(key, sig, acc, verdict, None, moved, dict(desc))], note
+        extra.append(Case(key + ('accepts',), sig, acc, verdict, None, False, dict(desc)))
+    return [Case(key, sig, run, impl, spec, moved, dict(desc))] + extra, note
 
 
 def case_from_desc(desc, impl, plain_rand=True):
     f = desc.get('f')
     if f == 'get_modularity':
-        return case_modularity(desc, impl)
+        return [case_modularity(desc, impl)], None
     if f == 'optimize_core':
-        return case_core(desc, impl)
+        return [case_core(desc, impl)], None
     if f == 'optimize_refine_core':
-        return case_refine(desc, impl)
+        return [case_refine(desc, impl)], None
     if f in ('Louvain', 'Leiden'):
         return case_fit(desc, impl, plain_rand)
     raise ValueError('unknown case description %r' % (f,))
 
 
-def cases_of(descs, plain_rand=True):
-    impls = run_impls(descs)
-    return [case_from_desc(d, i, plain_rand) for d, i in zip(descs, impls) if i != 'not-run']
+LOST = {}       # what the run did not look at (made visible in the evidence by `run`)
 
 
-# ------------------------------------------------------------------------------------------------
-# comparison
-# ------------------------------------------------------------------------------------------------
+def cases_of(descs, plain_rand=True, skip_hangs=False, timeout=None):
+    impls = run_impls(descs, timeout)
+    out = []
+    for d, i in zip(descs, impls):
+        if i == 'not-run':
+            LOST['impl:not-run'] = LOST.get('impl:not-run', 0) + 1
+            continue
+        if skip_hangs and i == 'hang':
+            # zero-tolerance stream on inexact inputs: a fit that does not return says nothing about C06 (C17)
+            LOST['fit:tol0-hang-skipped'] = LOST.get('fit:tol0-hang-skipped', 0) + 1
+            continue
+        if i == 'hang' or str(i).startswith('crash'):
+            LOST['impl:' + str(i).split(' ')[0]] = LOST.get('impl:' + str(i).split(' ')[0], 0) + 1
+        cs, note = case_from_desc(d, i, plain_rand)
+        if note:
+            LOST[note] = LOST.get(note, 0) + 1
+        out += cs
+    return out
+
+
 def _same(c, model, impl, spec_ok):
     if c.canon == 'mod' and model.startswith('ok ') and impl.startswith('ok '):
         ms = [Fraction(x) for x in model.split(' ')[1:]]
         xs = [Fraction(x) for x in impl.split(' ')[1:]]
         return len(ms) == len(xs) and all(abs(m - x) <= TOL64 * (1 + abs(m)) for m, x in zip(ms, xs))
+    if c.canon == 'kernel' and model.startswith('ok ') and impl.startswith('ok '):
+        # third figure of the model: whether the kernel's bound on the passes ended the loop (informative)
+        return model.split(' ')[1:3] == impl.split(' ')[1:3]
     if c.canon == 'refine' and model.startswith('ok ') and impl.startswith('ok '):
         # the model also reports how much of the oracle is left (it must not have run out) and whether the
         # kernel's bound on the passes ended the loop (informative)
         parts = model.split(' ')
-        return parts[1] == impl.split(' ')[1] and int(parts[2]) > 0
+        if int(parts[2]) <= 0:
+            raise ToolFailure('the oracle of rand() values ran out in %r' % (c.run[:80],))
+        return parts[1] == impl.split(' ')[1]
     if model == 'fuel' and impl == 'hang':
         return True     # neither terminates within its budget: termination is C17's subject
     return False
@@ -630,8 +711,10 @@ def _force_pow2(rng, n, es, undirected, m=None, maxw=256):
 def exact_domain(a, kind, res, fb):
     """float32 (and float64) arithmetic of the whole fit is exact on this input: see design-notes/status/C06.md"""
     a = sparse.csr_matrix(a)
-    if a.nnz == 0 or np.any(a.data <= 0) or np.any(a.data != np.round(a.data)):
+    if a.nnz == 0 or np.any(a.data == 0) or np.any(a.data != np.round(a.data)):
         return False
+    if np.any(a.data < 0) and abs(a).sum() > 64:
+        return False        # mixed signs: the magnitudes of the normalised values must stay small
     bip = fb or a.shape[0] != a.shape[1]
     w = _kind_total(a, kind, bip)
     if not _power_of_two(w):
@@ -653,11 +736,20 @@ def exact_domain(a, kind, res, fb):
     return max(k + 1, r + 2 * s) <= 19
 
 
-def _fit_desc(algo, a, kind, res, tol_o, tol_a, n_agg, fb, exact, seed, dtype='float64'):
+def _fit_desc(algo, a, kind, res, tol_o, tol_a, n_agg, fb, exact, seed, dtype='float64', shuffle=False, sort=False,
+              refit=None):
     d = _csr_desc(a, dtype)
     d.update(f=algo, kind=kind, resolution=res, tol_optimization=tol_o, tol_aggregation=tol_a, n_aggregations=n_agg,
-             force_bipartite=fb, exact=bool(exact), seed=seed)
+             force_bipartite=fb, exact=bool(exact), seed=seed, shuffle_nodes=bool(shuffle), sort_clusters=bool(sort),
+             refit=refit)
     return d
+
+
+def _other_graph(rng):
+    """a small graph an estimator was fitted on before (refit stream)"""
+    n = rng.randint(3, 7)
+    es = graphs.structured(rng, rng.choice(['cycle', 'clique', 'star', 'path']), n)
+    return _csr_desc(_csr_from(n, es, graphs.sym_weights(rng, es, [1, 2, 0.5])))
 
 
 FIT_RES = [1, 0.5, 2, 1.5, 0.25, 3]
@@ -672,16 +764,37 @@ def gen_fits(ctx):
     quick = ctx.quick
     descs = []
 
-    def both(a, kind, res, fb=False, exact=None, tol_o=None, tol_a=None, n_agg=None, dtype=None):
+    tol0 = []   # zero / tiny tolerance on inexact inputs: run apart, a fit that does not return is skipped
+
+    def both(a, kind, res, fb=False, exact=None, tol_o=None, tol_a=None, n_agg=None, dtype=None, refit=None,
+             plain=False, into=None):
         ex = exact_domain(a, kind, res, fb) if exact is None else exact
         dt = _pick_dtype(rng, sparse.csr_matrix(a).data) if dtype is None else dtype
         tol_o = rng.choice(TOLS if ex else TOLS_INEXACT) if tol_o is None else tol_o
         tol_a = rng.choice(TOLS) if tol_a is None else tol_a
         n_agg = rng.choice([-1, -1, -1, 1, 2]) if n_agg is None else n_agg
+        if rng.random() < 0.2 and sparse.csr_matrix(a).nnz:
+            a = graphs.unsorted_copy(sparse.csr_matrix(a), rng)      # CSR rows in any order
+        if refit is None and not plain and rng.random() < 0.12:
+            refit = rng.choice(['same', _other_graph(rng)])
         for algo in ('Louvain', 'Leiden'):
-            descs.append(_fit_desc(algo, a, kind, res, tol_o, tol_a, n_agg, fb, ex, rng.randrange(1, 10 ** 6), dt))
+            # shuffle seeds and cluster sorting: everywhere for the spec lines; the exact run lines keep
+            # sort_clusters=False, and shuffle only for Louvain (the permutation drawn is the model's oracle)
+            if plain:
+                shuffle, sort = False, False
+            elif ex:
+                shuffle, sort = (algo == 'Louvain' and rng.random() < 0.35), False
+            else:
+                shuffle, sort = rng.random() < 0.5, rng.random() < 0.5
+            (descs if into is None else into).append(
+                _fit_desc(algo, a, kind, res, tol_o, tol_a, n_agg, fb, ex, rng.randrange(1, 10 ** 6), dt,
+                          shuffle=shuffle, sort=sort, refit=refit))
+            ctx.count('fit:shuffle_nodes=%s' % shuffle)
+            ctx.count('fit:sort_clusters=%s' % sort)
         ctx.count('fit:' + ('exact' if ex else 'spec-only'))
         ctx.count('fit:dtype:' + dt)
+        if refit:
+            ctx.count('fit:refit')
 
     # all undirected graphs on 4 nodes (with loops sampled): weights forced to a power-of-two total
     g4 = list(graphs.all_undirected(4, loops=True))
@@ -781,20 +894,90 @@ def gen_fits(ctx):
                 w = [rng.choice(wts) for _ in es]
             both(_csr_from(n, es, w), kind, res, dtype=flavour.split('-')[0])
         ctx.count('fit:dtype-stream:' + flavour)
+    # a re-used estimator: the 'Increase:' figures of its log must be those of the fit that produced labels_
+    for name, n, es, w in graphs.suite(rng, 24 if quick else 200, 4, 16, kinds=kinds_g, weights=[1, 2, 3, 0.5]):
+        a = _csr_from(n, es, w)
+        if a.nnz == 0:
+            continue
+        both(a, rng.choice(KINDS), rng.choice(FIT_RES), exact=False, refit=rng.choice(['same', _other_graph(rng)]))
+    # mixed-sign weights with positive degrees, exact domain (scipy's products prune the sums that cancel)
+    for _ in range(30 if quick else 300):
+        n = rng.randint(3, 8)
+        es = graphs.random_edges(rng, n, rng.choice([0.5, 0.8]), directed=rng.random() < 0.5, loops=rng.random() < 0.3)
+        if len(es) < 3:
+            continue
+        a = _mixed_sign(rng, n, es)
+        if a is None:
+            continue
+        both(a, rng.choice(['potts', 'potts', 'newman', 'dugue']), rng.choice([1, 0.5, 2]), dtype='float64')
+        ctx.count('fit:mixed-sign')
+    # zero / tiny tolerances on inexact inputs (the quantifier says "tolerances"): judged when the fit returns
+    for name, n, es, w in graphs.suite(rng, 16 if quick else 150, 3, 14, kinds=kinds_g,
+                                       weights=[1, 2, 3, 5, 0.5, 0.3, 1.7]):
+        a = _csr_from(n, es, w)
+        if a.nnz == 0:
+            continue
+        both(a, rng.choice(KINDS), rng.choice(FIT_RES), exact=False, tol_o=rng.choice([0, 0, 1e-7]), into=tol0)
+        ctx.count('fit:tol0-inexact')
+    # mid-size graphs (hundreds of nodes): the float32 drift of the logged increases grows with the number of moves
+    for _ in range(2 if quick else 12):
+        n = rng.randint(250, 400 if quick else 700)
+        es = set()
+        for i in range(n):
+            for j in (i + 1, i + rng.randint(2, 9), rng.randrange(n)):
+                j %= n
+                if i != j:
+                    es.add((i, j))
+                    if rng.random() < 0.8:
+                        es.add((j, i))
+        es = sorted(es)
+        a = _csr_from(n, es, [rng.choice([1, 2, 3, 0.5, 0.3]) for _ in es])
+        both(a, rng.choice(KINDS), rng.choice([1, 0.5, 2]), exact=False, tol_o=1e-3, tol_a=1e-3, n_agg=-1,
+             dtype='float64')
+        ctx.count('fit:mid-size')
     # degenerate stream
     one = _csr_from(2, [(0, 1), (1, 0)], [1, 1])
-    both(one, 'dugue', 1, exact=True)
-    both(_csr_from(1, [(0, 0)], [4]), 'newman', 1, exact=True)
-    both(_csr_from(3, [(0, 1)], [2]), 'dugue', 1, exact=True)                      # one directed edge, isolated node
-    both(_csr_from(4, [(0, 1), (1, 0), (2, 3), (3, 2)], [1, 1, 1, 1]), 'potts', 0.25, exact=True)   # two components
-    both(sparse.csr_matrix((3, 3), dtype=float), 'dugue', 1, exact=True)            # empty -> ValueError
-    both(one, 'modularity', 1, exact=True)                                         # unknown kind -> ValueError
+    both(one, 'dugue', 1, exact=True, plain=True)
+    both(_csr_from(1, [(0, 0)], [4]), 'newman', 1, exact=True, plain=True)
+    both(_csr_from(3, [(0, 1)], [2]), 'dugue', 1, exact=True, plain=True)          # one directed edge, isolated node
+    both(_csr_from(4, [(0, 1), (1, 0), (2, 3), (3, 2)], [1, 1, 1, 1]), 'potts', 0.25, exact=True, plain=True)   # two components
+    both(sparse.csr_matrix((3, 3), dtype=float), 'dugue', 1, exact=True, plain=True)    # empty -> ValueError
+    both(one, 'modularity', 1, exact=True, plain=True)                             # unknown kind -> ValueError
+    # every symmetrised sum cancels: nothing is stored, nothing is divided, the fit returns the singletons
+    both(_csr_from(2, [(0, 1), (1, 0)], [1, -1]), 'potts', 1, exact=True, plain=True, tol_a=0)
+    both(_csr_from(3, [(0, 1), (1, 0), (1, 2), (2, 1)], [1, -1, 2, -2]), 'potts', 1, exact=True, plain=True, tol_a=0)
     # stored zeros in the input never reach the kernel
     z = sparse.csr_matrix((np.array([1., 0., 1., 0., 2., 2.]), np.array([1, 2, 0, 3, 3, 2]), np.array([0, 2, 3, 4, 6])),
                           shape=(4, 4))
     both(z, 'newman', 3, exact=False)
     both(z, 'potts', 3, exact=False)
-    return descs
+    return descs, tol0
+
+
+def _mixed_sign(rng, n, es):
+    """integer weights of both signs with total a power of two, sum of absolute values <= 64 and every out- and
+    in-degree positive (so that `get_probs` accepts); None when the draw does not fit"""
+    for _ in range(20):
+        w = [rng.choice([1, 1, 2, 3, -1, -1, -2]) for _ in es]
+        a = _csr_from(n, es, w)
+        tot = a.sum()
+        if tot < 1:
+            continue
+        target = 1
+        while target < tot:
+            target *= 2
+        # raise one positive entry to reach the power of two
+        pos = [k for k, x in enumerate(w) if x > 0]
+        if not pos:
+            continue
+        w[rng.choice(pos)] += int(target - tot)
+        a = _csr_from(n, es, w)
+        if abs(a).sum() > 64 or a.sum() != target:
+            continue
+        if np.any(np.asarray(a.sum(axis=1)).ravel() <= 0) or np.any(np.asarray(a.sum(axis=0)).ravel() <= 0):
+            continue
+        return a
+    return None
 
 
 def _normalised(rng, n, directed, loops, p, weights):
@@ -896,17 +1079,28 @@ def build_descs(ctx):
     descs += core
     if plain:
         descs += refine
-    descs += gen_fits(ctx)
+    fits, tol0 = gen_fits(ctx)
+    descs += fits
     ctx.exhaustive = False
-    return descs, plain
+    return descs, tol0, plain
 
 
 def run(ctx):
-    descs, plain = build_descs(ctx)
+    LOST.clear()
+    descs, tol0, plain = build_descs(ctx)
     cases = cases_of(descs, plain)
-    for c in cases:
-        if c.impl in ('hang',) or str(c.impl).startswith('crash'):
-            ctx.count('impl:' + str(c.impl).split(' ')[0])
+    # zero-tolerance fits on inexact inputs: their own workers and a short alarm; hangs are skipped, not compared
+    cases += cases_of(tol0, plain, skip_hangs=True, timeout=5)
+    for k, v in sorted(LOST.items()):
+        ctx.count(k, v)
+    if LOST.get('impl:not-run'):
+        ctx.note('%d cases were not run: the implementation hung or crashed %d times before' % (
+            LOST['impl:not-run'], MAX_HANGS))
+    if LOST.get('leiden:no-seed-observed'):
+        ctx.note('%d exact Leiden fits without an observed seed of the refinement: compared through spec lines only'
+                 % LOST['leiden:no-seed-observed'])
+        if LOST['leiden:no-seed-observed'] > 20:
+            raise ToolFailure('the wrapper around optimize_refine_core observes no call: the tie of Leiden.fit is lost')
     evaluate(ctx, cases)
 
 
@@ -949,6 +1143,15 @@ def search(ctx, pending):
             for kind in KINDS:
                 for algo in ('Louvain', 'Leiden'):
                     descs.append(_fit_desc(algo, b, kind, 1, 1e-3, 1e-3, -1, nr == nc, False, 1))
+    # histories and shuffles of the estimator
+    for es in list(graphs.all_undirected(4))[1::3]:
+        if not es:
+            continue
+        a = _csr_from(4, es, [1] * len(es))
+        for algo in ('Louvain', 'Leiden'):
+            descs.append(_fit_desc(algo, a, rng.choice(KINDS), 1, 1e-3, 1e-3, -1, False, False, 1, refit='same'))
+            descs.append(_fit_desc(algo, a, rng.choice(KINDS), 1, 1e-3, 1e-3, -1, False, False, rng.randrange(1, 99),
+                                   shuffle=True, sort=rng.random() < 0.5))
     cases = cases_of(descs, False)
     for c in cases:
         if c.spec is not None:
